@@ -90,7 +90,7 @@ def history_cases(ck, count, nmax=5):
     from harness import cls
     hist = []
     for kind, n, g in G.collections(ck.rng, count, 2, nmax):
-        steps, _ = cls.gen_steps(ck.rng, n, g, 1, 3)
+        steps, _ = cls.gen_steps(ck.rng, n, g, 1, 3, expand=0.25)
         hist.append({"op": "history", "gens": g, "steps": steps, "n": n, "orders": cls.gen_orders(ck.rng, len(steps) + 1)})
     hres = ck.impl("c01", hist, per_case_s=300)
     cases, res = [], []
@@ -99,7 +99,7 @@ def history_cases(ck, count, nmax=5):
             continue   # an edit the library rejects is C10's business
         for si, stage in enumerate(r["stages"]):
             if stage["gens"]:
-                cases.append(("history:" + json.dumps({"gens": c["gens"], "steps": c["steps"][:si], "orders": c["orders"][:si + 1]}), c["n"], stage["gens"]))
+                cases.append(("history:" + json.dumps({"gens": c["gens"], "steps": c["steps"][:si], "orders": c["orders"][:si + 1]}), len(stage["gens"][0]), stage["gens"]))
                 res.append(stage)
     return cases, res
 
